@@ -187,7 +187,9 @@ func (e *ExecutionEngine) Execute(ctx context.Context, operation *graphql.Reques
 			astnormalization.WithPrevalidationRules(
 				astvalidation.DeferStreamOnValidOperations(),
 				astvalidation.DeferStreamHaveUniqueLabels(),
+				astvalidation.DirectivesAreDefined(),
 				astvalidation.DirectivesAreInValidLocations(),
+				astvalidation.DirectivesAreUniquePerLocation(),
 				astvalidation.StreamAppliedToListFieldsOnly()),
 		)
 		if err != nil {
